@@ -411,6 +411,8 @@ def random_runs(ctx, pool, cov, runs, judge_graphs=False):
         agg["pages_round_tripped"] = agg.get("pages_round_tripped", 0) + st.get("pages-round-tripped", 0)
         agg["cachefull_statements_restarted"] = agg.get("cachefull_statements_restarted", 0) + st.get("cachefull-stmts", 0)
         agg["mixed_refused_updates"] = agg.get("mixed_refused_updates", 0) + st.get("mixed-updates", 0)
+        agg["wide_updates_refused_by_a_full_cache"] = agg.get("wide_updates_refused_by_a_full_cache", 0) + st.get("wide-updates-refused-by-a-full-cache", 0)
+        agg["wide_updates_under_a_small_cache"] = agg.get("wide_updates_under_a_small_cache", 0) + st.get("wide-updates-under-a-small-cache", 0)
         agg["crash_in_shutdown_flush"] = agg.get("crash_in_shutdown_flush", 0) + st.get("crash-in-shutdown-flush", 0)
         agg["order_events_accepted_by_walorder"] = agg.get("order_events_accepted_by_walorder", 0) + info.get("order", 0)
         if kind == "viol":
